@@ -44,6 +44,11 @@ func run(r *core.R) {
 	weights[opReleaseHostAffinities] = src.Intn(4, "w_relhost")
 	weights[opEnsureBlock] = src.Intn(3, "w_ensure")
 	weights[opIPsByHandle] = src.Intn(3, "w_ipsbyh")
+	if w.fifo {
+		weights[opAssignIP] = 6 + src.Intn(10, "w_assignip_f")
+		weights[opReleaseOwn] = 20 + src.Intn(14, "w_relown_f")
+		weights[opClaimAffinity], weights[opReleaseAffinity], weights[opReleaseHostAffinities], weights[opEnsureBlock] = 0, 0, 0, 0
+	}
 	capAsserted := w.maxBlocks > 0
 	callersPerHost := src.Range(1, 2, "callers_per_host")
 	w.capAsserted = capAsserted
@@ -68,6 +73,9 @@ func run(r *core.R) {
 	r.Cfg("callers_per_host", callersPerHost)
 
 	opsPer := src.Range(3, 14, "ops_per_actor")
+	if w.fifo {
+		opsPer = src.Range(10, 24, "ops_per_actor_f")
+	}
 	mk := func(name, host string) *actorState {
 		a := &actorState{w: w, name: name, host: host, client: w.newClient()}
 		a.sa = w.s.NewActor(name)
